@@ -121,6 +121,10 @@ def unary_ops():
     ops.append(("to_kcals_equivalent", lambda f: f.in_units_kcals_equivalent(),
                 _conv(("kcals per person per day", "effective kcals per person per day", "effective kcals per person per day"))))
     ops.append(("to_billions_fed", lambda f: f.in_units_billions_fed(), _conv(("billion people fed",) * 3)))
+    # direct conversions whose fat and protein targets differ (the named helpers above always ask for the same label twice)
+    for nm, tgt in (("to_mixed_tons", ("billion kcals", "thousand tons", "million tons")),
+                    ("to_mixed_fed", ("percent people fed", "grams per person per day", "billion people fed"))):
+        ops.append((nm, (lambda tgt: lambda f: f.in_units(*tgt))(tgt), _conv(tgt)))
     return ops
 
 
